@@ -696,11 +696,7 @@ def autoforwards_method(method, args, kwargs):
 
 
 def autoforwards(obj, args=(), kwargs={}):
-    try:
-        obj._sigtools__autoforwards_hint
-    except AttributeError:
-        pass
-    else:
+    if callable(getattr(obj, '_sigtools__autoforwards_hint', None)):
         return autoforwards_hint(obj, args, kwargs)
     if isinstance(obj, functools.partial):
         return autoforwards_partial(obj, args, kwargs)
